@@ -79,6 +79,18 @@ RULE_DOC = {
     "T11-items": "collecting impls append every element before requesting the next, from one polling site",
     "C10-tags": "inline tag writers / readers agree (the static-to-inline move uses them)",
     "NOSTATE": "the crate keeps no state between calls",
+    "C06-shrink": "shrink_to changes the buffer only towards a smaller capacity (a large bound is a no-op)",
+    "C06-growth": "the growth rule never returns less than len + additional",
+    "C03-moves": "byte moves stay inside the text / the block",
+    "C11-sites": "growth sites use the rule on (length, additional)",
+    "C09-hint": "size hints are reserved only for char items, lower bound only",
+    "C12-hint": "size hints are reserved only for char items, lower bound only",
+    "C10-empty": "an empty append returns before reserve",
+    "C18-noguard": "collecting impls keep no guard that undoes appends on unwind",
+    "C05-items": "collecting impls poll the iterator on every path and append every element",
+    "C05-ops": "Add / AddAssign append to the left operand in place",
+    "C20-serde": "serde / arbitrary impls are complete in every feature set that has them",
+    "C20-pair": "plain form = try form + the message panic (in debug and release alike)",
     "C05-errused": "no Result<_, ReserveError> is discarded",
     "C05-ownalloc": "nothing outside the heap-buffer module allocates directly",
     "C06-pair": "plain form = try form + the message panic",
@@ -102,10 +114,16 @@ def rules_C03(ctx):
     r_layout.rule_reserve_post(ctx, rule="C03-room")
     r_own.rule_stale_views(ctx)
     r_moves.realloc_sites_keep_text(ctx, "C03-realloc")
+    # no read or write outside the text / the block: the byte moves have the prescribed source, destination and count
+    r_moves.rule_moves(ctx, rule="C03-moves")
     r_api.rule_ownership_primitives(ctx)
 
 
 def rules_C04(ctx):
+    # a buffer another thread still reads is neither freed early nor kept forever: the counter equals
+    # the number of handles (every handle's Drop gives its reference back)
+    ctx.take_ts(["R2", "R3", "P1", "DUP"])
+    r_own.rule_drop_releases(ctx)
     ctx.take_ts(["R1", "P2", "P3", "P4", "P5", "unclassified", "solver"])
     # a write into a buffer other handles (threads) can read is a data race: writes require proved uniqueness
     ctx.take_ts(["R-contract.Modifiable", "R-contract.Unique", "R-contract.realloc", "R-contract.set_len", "R-contract.write"])
@@ -128,6 +146,10 @@ def rules_C05(ctx):
     r_api.rule_errors_not_dropped(ctx)
     r_api.rule_try_never_panics_on_alloc(ctx)
     r_api.rule_error_reaches_panic(ctx)
+    # a refused pre-sizing hint is ignored, not turned into "nothing was appended"
+    r_retain.rule_items_appended(ctx, rule="C05-items", traits=("core::iter::traits::collect::FromIterator", "core::iter::traits::collect::Extend"))
+    # the operators append in place: the left operand is never moved out and put back around a call that can panic
+    r_deleg.rule_operator_appends(ctx, rule="C05-ops")
 
 
 def rules_C02(ctx):
@@ -173,6 +195,11 @@ def rules_C11(ctx):
     # the formatting and operator front ends are the appends themselves (no checkpoint copy, no rebuilt result)
     r_deleg.rule_C15(ctx, rule="C11-fmt")
     r_deleg.rule_operator_appends(ctx, rule="C11-ops")
+    # the counter is given back by every Drop (a handle that forgets to release makes the survivors
+    # look shared for ever: their appends within capacity then reallocate)
+    r_own.rule_drop_releases(ctx)
+    # the private copy made for a shared buffer has room for len + additional as well
+    r_growth.rule_sites(ctx, rule="C11-sites")
     # "owns its storage exclusively" is judged from the reference count: it has to equal the number of handles
     ctx.take_ts(["R2", "R3", "P1", "DUP"])
     # the public reserve / with_capacity / appends reach the storage layer's operation on every path
@@ -187,6 +214,7 @@ def rules_C18(ctx):
     r_api.rule_wrappers_delegate(ctx, rule="C18-wrap", only=("try_retain",))
     r_retain.rule_items_appended(ctx, rule="C18-items", traits=("core::iter::traits::collect::FromIterator", "core::iter::traits::collect::Extend"))
     r_own.rule_no_hidden_state(ctx)
+    r_retain.rule_no_rollback_guards(ctx)
 
 
 def rules_C01(ctx):
@@ -224,6 +252,10 @@ def rules_C06(ctx):
     r_layout.rule_null_checks(ctx)
     # a refused size is an Err / the documented panic message - never an abort or another panic
     r_api.rule_pairing(ctx, rule="C06-pair")
+    # a bound at or above the current capacity is a no-op, whatever its size; and what the growth
+    # rule hands out is never below what was asked for
+    r_shrink.rule_shrink_guards(ctx, rule="C06-shrink")
+    r_growth.rule_formula(ctx, rule="C06-growth")
     r_layout.rule_len_slot(ctx)
 
 
@@ -241,6 +273,7 @@ def rules_C12(ctx):
     r_shrink.rule_realloc_lands(ctx, rule="C12-lands")
     r_layout.rule_capacity_roots(ctx)
     r_api.rule_wrappers_delegate(ctx, rule="C12-wrap", only=("try_reserve", "try_push_str", "try_push", "try_insert_str", "try_insert"))
+    r_layout.rule_size_hint_use(ctx, rule="C12-hint")
 
 
 def rules_C14(ctx):
@@ -295,6 +328,10 @@ def rules_C20(ctx):
     r_layout.rule_len_slot(ctx)
     # ... and the views mean the same on every target: is_empty is len() == 0, not a per-target shortcut
     r_deleg.rule_views(ctx, rule="C20-views")
+    # the optional impls are the same whatever else is enabled (serde without std still takes byte
+    # strings), and the plain forms fail the same way in debug and release builds
+    r_deleg.rule_C19(ctx, rule="C20-serde")
+    r_api.rule_pairing(ctx, rule="C20-pair")
 
 
 def rules_C08(ctx):
@@ -317,6 +354,7 @@ def rules_C09(ctx):
     r_api.rule_wrappers_delegate(ctx, rule="C09-wrap", only=("try_push", "try_push_str", "try_insert", "try_insert_str", "try_with_capacity", "try_reserve"))
     r_layout.rule_capacity_roots(ctx)
     r_deleg.rule_presize(ctx)
+    r_layout.rule_size_hint_use(ctx, rule="C09-hint")
     # integers: the requested capacity is exactly the digit count (C14 proves digit count = text length)
     r_num.rule_into_repr(ctx)
 
@@ -336,6 +374,8 @@ def rules_C10(ctx):
     # goes through the audited inline writers: a full inline buffer has no tag byte to write
     r_text.rule_T1(ctx, rule="C10-tags")
     r_text.rule_T5(ctx)
+    # appending nothing writes nothing: the empty append returns before the storage is made writable
+    r_reach.rule_empty_append(ctx)
 
 
 PROPS = {
